@@ -257,13 +257,15 @@ static void c13_loop_pollers(int shard, long long seed, long long n) {
   }
 }
 
-struct Cfg { uint16_t S, I, TO; int wiring; };   // wiring 0: ref==backup, 1: distinct, 2: no backup, 3: no reference
+struct Cfg { uint16_t S, I, TO; int wiring; int firstValid; };   // wiring 0: ref==backup, 1: distinct, 2: no backup, 3: no reference
+// firstValid: 0 = ordinary values; 1 = the first valid response of the run is epoch second 0 (2000-01-01T00:00:00, what an unset
+// RTC reports), 2 = it is 1, 3 = it is -1: legal values that sit next to a clock's own initial / sentinel encodings
 struct Step { uint32_t adv; uint8_t outcome; };   // outcome 0 not ready, 1 valid new, 2 valid same-as-clock, 3 invalid
 
 static std::map<std::string, long long> g_states, g_edges;
 
 static std::string path_str(const Cfg& cfg, const std::vector<Step>& path, size_t upto) {
-  char b[96]; snprintf(b, sizeof b, "cfg(S=%u,I=%u,TO=%u,wiring=%d):", cfg.S, cfg.I, cfg.TO, cfg.wiring);
+  char b[128]; snprintf(b, sizeof b, "cfg(S=%u,I=%u,TO=%u,wiring=%d,firstValid=%d):", cfg.S, cfg.I, cfg.TO, cfg.wiring, cfg.firstValid);
   std::string s = b;
   static const char* on[] = {"notready", "valid-new", "valid-same", "invalid"};
   for (size_t i = 0; i < upto && i < path.size(); i++) { snprintf(b, sizeof b, " +%u/%s", path[i].adv, on[path[i].outcome]); s += b; }
@@ -296,13 +298,17 @@ static bool run_path(const Cfg& cfg, const std::vector<Step>& path, unsigned lon
   uint32_t maxAdv = 0;
   acetime_t nextVal = 500000000;
   bool consulted_last = false;
+  bool usedSpecial = false;
   for (size_t i = 0; i < path.size(); i++) {
     const Step& st = path[i];
     g_true_ms += st.adv;
     if (st.adv > maxAdv) maxAdv = st.adv;
     acetime_t curReading = shadow.getNow();      // what the clock reads now (shadow polled at the same instants)
     ref.ready = st.outcome != 0;
-    if (st.outcome == 1) { nextVal += 7919; ref.response = nextVal; }
+    if (st.outcome == 1) {
+      if (cfg.firstValid && !usedSpecial) { ref.response = cfg.firstValid == 1 ? 0 : (cfg.firstValid == 2 ? 1 : -1); usedSpecial = true; CNT.add("c14.special_first_valid_values"); }
+      else { nextVal += 7919; ref.response = nextVal; }
+    }
     else if (st.outcome == 2) ref.response = (curReading == kInv) ? (nextVal += 7919) : curReading;
     else if (st.outcome == 3) ref.response = kInv;
     size_t rl0 = ref.log.size(), bl0 = bak.log.size();
@@ -454,6 +460,7 @@ static const Cfg kCfgs[] = {
   {16, 2, 500, 0}, {16, 2, 500, 1}, {16, 2, 500, 2},
   {5, 5, 100, 1}, {5, 5, 100, 2}, {5, 1, 100, 1},
   {2, 1, 0, 1}, {2, 1, 0, 0}, {7, 1, 250, 1}, {61, 3, 2000, 1}, {65, 1, 1000, 1},
+  {16, 2, 500, 1, 1}, {5, 1, 100, 1, 2}, {5, 5, 100, 2, 3}, {60, 5, 1000, 0, 1},
 };
 static const int kNumCfgs = sizeof(kCfgs) / sizeof(kCfgs[0]);
 
